@@ -5,6 +5,7 @@
 //! interpretation), every count as an integer and every tf-idf entry as round(v * 10^4).
 //! No oracle logic lives here: tokenisation, n-grams, filtering and idf are recomputed by TLC.
 use linfa_preprocessing::tf_idf_vectorization::{FittedTfIdfVectorizer, TfIdfMethod, TfIdfVectorizer};
+use linfa::ParamGuard;
 use linfa_preprocessing::{CountVectorizer, CountVectorizerParams, Tokenizer};
 use ndarray::Array1;
 use vh::serde_json::{json, Value};
@@ -40,6 +41,7 @@ fn tokenizer_of(kind: &str) -> Option<Tokenizer> {
         "default" => None, // r"\b\w\w+\b"
         "re_w1" => Some(Tokenizer::Regex(r"\w+".to_string())),
         "re_s2" => Some(Tokenizer::Regex(r"\S\S+".to_string())),
+        "re_b2" => Some(Tokenizer::Regex(r"\b[^ ][^ ]+\b".to_string())), // the custom regex of linfa's own tests
         "fn_ws" => Some(Tokenizer::Function(ws_tokenizer)),
         other => panic!("unknown tokenizer kind {}", other),
     }
@@ -155,10 +157,10 @@ fn dense_counts(m: &sprs::CsMat<usize>) -> (Value, usize, usize) {
     let rows = Value::Array(d.outer_iter().map(|r| Value::Array(r.iter().map(|x| json!(*x as i64)).collect())).collect());
     (rows, m.rows(), m.cols())
 }
-fn dense_tfidf(m: &sprs::CsMat<f64>) -> (Value, usize, usize) {
+fn dense_tfidf(m: &sprs::CsMat<f64>) -> (Value, usize, usize, bool) {
     let d = m.to_dense();
     let rows = Value::Array(d.outer_iter().map(|r| fxv(r.iter(), S)).collect());
-    (rows, m.rows(), m.cols())
+    (rows, m.rows(), m.cols(), all_finite(d.iter()))
 }
 
 /// kind "idf": the public `TfIdfMethod::compute_idf(n, df)` alone, for the three methods
@@ -167,7 +169,8 @@ fn run_idf(inp: &Value) -> Vec<Value> {
     let df = geti(inp, "df") as usize;
     let mut ev = vec![];
     for (name, m) in [("smooth", TfIdfMethod::Smooth), ("nonsmooth", TfIdfMethod::NonSmooth), ("textbook", TfIdfMethod::Textbook)] {
-        ev.push(json!({"ev": "idf", "method": name, "v": fx(m.compute_idf(n, df), S)}));
+        let v = m.compute_idf(n, df);
+        ev.push(json!({"ev": "idf", "method": name, "finite": v.is_finite(), "v": if v.is_finite() { fx(v, S) } else { json!(0) }}));
     }
     ev.push(json!({"ev": "end"}));
     ev
@@ -195,7 +198,19 @@ fn run(case: &Value) -> Vec<Value> {
     // ---- count vectoriser
     let fitted = guarded(|| {
         let p = count_params(&st);
-        if st.fixed {
+        if form == "checked" {
+            // third calling form: ParamGuard::check() first, then the methods of the checked parameter set
+            match p.check() {
+                Err(e) => Err(e),
+                Ok(valid) => {
+                    if st.fixed {
+                        valid.fit_vocabulary(&st.vocab[..])
+                    } else {
+                        valid.fit(&train_a)
+                    }
+                }
+            }
+        } else if st.fixed {
             p.fit_vocabulary(&st.vocab[..])
         } else if form == "str" {
             p.fit(&train_sa.view())
@@ -266,8 +281,8 @@ fn run(case: &Value) -> Vec<Value> {
                 Err(msg) => ev.push(panic_event("tfidf.transform", &msg)),
                 Ok(Err(e)) => ev.push(json!({"ev": "tfidf", "on": on, "ok": false, "err": ascii(&e.to_string())})),
                 Ok(Ok(m)) => {
-                    let (rows, nr, nc) = dense_tfidf(&m);
-                    ev.push(json!({"ev": "tfidf", "on": on, "ok": true, "method": seen, "rows": nr as i64, "cols": nc as i64, "m": rows}));
+                    let (rows, nr, nc, finite) = dense_tfidf(&m);
+                    ev.push(json!({"ev": "tfidf", "on": on, "ok": true, "method": seen, "rows": nr as i64, "cols": nc as i64, "finite": finite, "m": rows}));
                 }
             }
         }
